@@ -325,7 +325,9 @@ func c18Run(t lib.Fataler, c *c18Case, enum bool) {
 	lib.Journal("C18", "c18", c)
 	msg, nt, labels := checkC18(c)
 	labels = append(labels, "mode="+c.Mode)
-	sample := func() any { return map[string]any{"query": c.Query, "mode": c.Mode, "batch": c.Batch, "pairs": len(c.Pairs)} }
+	sample := func() any {
+		return map[string]any{"query": c.Query, "mode": c.Mode, "batch": c.Batch, "pairs": len(c.Pairs)}
+	}
 	if enum {
 		lib.Stats.EnumCase(nt, labels, sample)
 	} else {
